@@ -223,9 +223,10 @@ def r3(ctx):
     new = ctx.obligations[before:]
     del ctx.obligations[before:]
     for o in new:
-        if o.construct.startswith("at5."):
-            o.rule = "C17.R3"
-            ctx.obligations.append(o)
+        # the stride / record-count / length-multiple obligations of both generations: a truncated or over-long record area is
+        # rejected, never read as fewer or shifted records
+        o.rule = "C17.R3"
+        ctx.obligations.append(o)
 
 
 def r4(ctx):
